@@ -341,11 +341,12 @@ impl Env {
     }
 
     /// the registry as a later command (or `antctl status`) would find it
-    fn recorded(&self) -> NodeRegistry {
+    /// Err: the file the code under test saved last does not load ("the registry saved after each
+    /// step loads back to the same state" — a violation, not an environment failure)
+    fn recorded(&self) -> Result<NodeRegistry, String> {
         match self.glue {
-            Glue::Cli => NodeRegistry::load(&self.reg_path)
-                .unwrap_or_else(|e| fatal(format!("registry does not load: {e}"))),
-            Glue::Direct => self.reg.clone(),
+            Glue::Cli => NodeRegistry::load(&self.reg_path).map_err(|e| format!("{e}")),
+            Glue::Direct => Ok(self.reg.clone()),
         }
     }
 }
@@ -491,7 +492,11 @@ fn target_version(current: &str, dir: VerDir) -> semver::Version {
     v
 }
 
-async fn run_op(env: &mut Env, op_idx: usize, op: &Op) -> OpOutcome {
+async fn run_op(env: &mut Env, op_idx: usize, op: &Op) -> Result<OpOutcome, String> {
+    Ok(run_op_inner(env, op_idx, op).await?)
+}
+
+async fn run_op_inner(env: &mut Env, op_idx: usize, op: &Op) -> Result<OpOutcome, String> {
     env.os.st().begin_op(op_idx);
     let mut out = OpOutcome {
         kind: op.kind(),
@@ -504,10 +509,10 @@ async fn run_op(env: &mut Env, op_idx: usize, op: &Op) -> OpOutcome {
     };
 
     if let Op::Crash(i) = op {
-        let rec = env.recorded();
+        let rec = env.recorded()?;
         if rec.nodes.is_empty() {
             out.skipped = true;
-            return out;
+            return Ok(out);
         }
         let k = pick_idx(*i, rec.nodes.len());
         if env.os.crash(&rec.nodes[k].antnode_path) {
@@ -515,13 +520,12 @@ async fn run_op(env: &mut Env, op_idx: usize, op: &Op) -> OpOutcome {
         }
         out.ok = true;
         out.target = Some(k);
-        return out;
+        return Ok(out);
     }
 
     // the registry the command works on
     let mut reg = match env.glue {
-        Glue::Cli => NodeRegistry::load(&env.reg_path)
-            .unwrap_or_else(|e| fatal(format!("registry does not load: {e}"))),
+        Glue::Cli => NodeRegistry::load(&env.reg_path).map_err(|e| format!("{e}"))?,
         Glue::Direct => std::mem::replace(&mut env.reg, empty_registry(&env.reg_path)),
     };
     let os = env.os.clone();
@@ -698,7 +702,7 @@ async fn run_op(env: &mut Env, op_idx: usize, op: &Op) -> OpOutcome {
         reg.save().unwrap_or_else(|e| fatal(format!("save: {e}")));
         env.reg = reg;
     }
-    out
+    Ok(out)
 }
 
 // ------------------------------------------------------------------------------------------------
@@ -736,9 +740,26 @@ async fn execute_async(case: &Case) -> Exec {
     };
 
     for (op_idx, op) in case.ops.iter().enumerate() {
-        let before = env.recorded();
+        // the registry file is written by the code under test only (`NodeRegistry::save` after every
+        // command): when it does not load, that is the finding, and the history ends there
+        let unloadable = |e: String, when: &str, failures: &mut Vec<Failure>| {
+            failures.push(Failure { sig: "saved_registry_does_not_load".into(), detail: format!("{when} op #{op_idx} {}: NodeRegistry::load of the file the previous command saved fails: {e}", op.short()) });
+        };
+        let before = match env.recorded() {
+            Ok(r) => r,
+            Err(e) => {
+                unloadable(e, "before", &mut failures);
+                break;
+            }
+        };
         let before_snap = snapshot(&before);
-        let out = run_op(&mut env, op_idx, op).await;
+        let out = match run_op(&mut env, op_idx, op).await {
+            Ok(o) => o,
+            Err(e) => {
+                unloadable(e, "at the start of", &mut failures);
+                break;
+            }
+        };
         if out.skipped {
             labels.push(format!("skipped/{}", out.kind));
             continue;
@@ -752,7 +773,13 @@ async fn execute_async(case: &Case) -> Exec {
         if out.kind == "upgrade" && out.ok {
             labels.push(format!("upgrade_result/{}", out.msg));
         }
-        let rec = env.recorded();
+        let rec = match env.recorded() {
+            Ok(r) => r,
+            Err(e) => {
+                unloadable(e, "after", &mut failures);
+                break;
+            }
+        };
         // the FakeOS/RPC calls this operation made (failure details only)
         let call_trace: String = {
             let st = env.os.st();
